@@ -58,8 +58,10 @@ func usage() {
 
 // harnessOverlay builds the overlay (virtual path -> real file) for a package dir.
 func harnessOverlay(pkgDirs []string, withTests bool) map[string]string {
-	ov := map[string]string{
-		filepath.Join(repoDir, "internal/vnd/vnd.go"): filepath.Join(verifDir, "harness/vnd/vnd.go"),
+	ov := map[string]string{}
+	vfiles, _ := filepath.Glob(filepath.Join(verifDir, "harness/vnd/*.go"))
+	for _, f := range vfiles {
+		ov[filepath.Join(repoDir, "internal/vnd", filepath.Base(f))] = f
 	}
 	for _, pd := range pkgDirs {
 		hdir := filepath.Join(verifDir, "harness", pd)
